@@ -30,6 +30,9 @@ type C04Payload struct {
 	Fd1Faults []simrt.WriteFault `json:"fd1_faults,omitempty"`
 	Fd2Faults []simrt.WriteFault `json:"fd2_faults,omitempty"`
 	EmptyComp bool               `json:"empty_completion_env,omitempty"` // GO_FLAGS_COMPLETION="" must behave like unset
+	// StaleComp: GO_FLAGS_COMPLETION is set while the parser is constructed and
+	// unset before ParseArgs runs: an ordinary parse, outside completion mode.
+	StaleComp bool `json:"stale_completion_env,omitempty"`
 }
 
 type propC04 struct{}
@@ -139,6 +142,7 @@ func (propC04) Gen(r *Rng, idx int, tier string) *Scenario {
 	p := sc.C04
 	mr := r.Fork("mode")
 	p.EmptyComp = mr.Chance(1, 8)
+	p.StaleComp = !p.EmptyComp && r.Fork("stalecomp").Chance(1, 10)
 	if mr.Bool() {
 		p.Mode = "plan"
 		sc.Family = "plan+fault"
@@ -247,6 +251,10 @@ func c04Run(sc *Scenario, argv []string, callee []CalleeFault, env map[string]st
 	}
 	if sc.C04 != nil && sc.C04.EmptyComp {
 		s2.World.Env["GO_FLAGS_COMPLETION"] = ""
+	}
+	if sc.C04 != nil && sc.C04.StaleComp {
+		s2.World.Env["GO_FLAGS_COMPLETION"] = "1"
+		s2.World.UnsetAfterBuild = []string{"GO_FLAGS_COMPLETION"}
 	}
 	op := Op{Kind: "parse", Argv: bstrs(argv)}
 	if fdFaults && sc.C04 != nil {
@@ -563,6 +571,9 @@ func (propC04) Reductions(sc *Scenario) []func(*Scenario) bool {
 	}
 	if len(p.Fd1Faults)+len(p.Fd2Faults) > 0 {
 		out = append(out, func(s *Scenario) bool { s.C04.Fd1Faults, s.C04.Fd2Faults = nil, nil; return true })
+	}
+	if p.StaleComp {
+		out = append(out, func(s *Scenario) bool { s.C04.StaleComp = false; return true })
 	}
 	if p.EmptyComp {
 		out = append(out, func(s *Scenario) bool { s.C04.EmptyComp = false; return true })
